@@ -30,6 +30,7 @@ THEOREMS = {
     "C07": [("XV.Macro.loop_partition", _PM), ("XV.Macro.param_is_concat", _PM), ("XV.Macro.concat_is_source_slice", _PM)],
     "C08": [("XV.Tz.pseudo_token_is_source_slice", "XonshVerif.Proofs.Tiling"), ("XV.Tz.handleEndProgs_adv", _PT), ("XV.Tz.nextPseudo_adv", _PT), ("XV.Tz.scanLine_no_loopFuel", _PT)],
     "C11": [("XV.Helpers.error_wellformed", _HELP)],
+    "C12": [("XV.Lines.getLines_file_eq_string", "XonshVerif.Properties.C12"), ("XV.Lines.scanFile_spec", "XonshVerif.Properties.C12")],
     "C14": [("XV.Tz.tokens_after_neutral_prefix", "XonshVerif.Properties.C14"), ("XV.Tz.tokenize_append", "XonshVerif.Properties.C14"), ("XV.Tz.neutral_prefix_lines", "XonshVerif.Properties.C14"),
             ("XV.Tz.tokenizeLines_sh", "XonshVerif.Proofs.TokCompose"), ("XV.Tz.tokenizeLines_append", "XonshVerif.Proofs.TokCompose")],
     "C15": [("XV.Peg.parse_verbose", "XonshVerif.Properties.C15"), ("XV.Peg.execRule_verbose", "XonshVerif.Properties.C15"), ("XV.Peg.vinv", "XonshVerif.Proofs.PegVerbose")],
@@ -164,6 +165,7 @@ CERTS = {
     "C18": [("XVC.ir_complete", _B), ("XVC.cycle_cert", _CO), ("XVC.memo_mask_correct", _CO), ("XVC.memoised_rules_expected", _CO), ("XVC.shipped_no_multi_edge_on_cycle", _CO)],
     "C04": [("XVC.ir_complete", _B), ("XVC.no_nullable_required_field", _AC), ("XVC.action_fields_nonempty", _AC)],
     "C13": [("XVC.state_inventory_expected", _AC)],
+    "C16": [("XVC.regenerated_ir_equals_shipped", "XonshCerts.Regen"), ("XVC.regenerated_ir_nonempty", "XonshCerts.Regen"), ("XVC.regenerated_xonsh_alternatives_inert", "XonshCerts.Regen")],
     "C07": [("XVC.ir_complete", _B)],
     "C11": [("XVC.ir_complete", _B)],
 }
@@ -336,6 +338,24 @@ def corr_pipeline(pid):
     return run
 
 
+def corr_getlines(pid):
+    def run(rep, tier):
+        from harness import corr
+        from harness.common import rng
+        from harness.gen import corpus
+        from harness.props import c11
+
+        r = rng(pid, "getlines")
+        srcs = list(c11.INVALID_SNIPPETS) + list(corpus.PY_STMTS[:60]) + ["x = '\u00e9' +\n", "\u00f1 = (1 2)\n", "a\n\n\nb", "one line no newline"]
+        if tier != "quick":
+            srcs += [s + t for s in c11.INVALID_SNIPPETS[:40] for t in corpus.PY_STMTS[:10]]
+        bad = corr.run_getlines_correspondence(rep, srcs, r)
+        for b in bad[:3]:
+            rep.extra.setdefault("correspondence_disagreements", []).append(b)
+
+    return run
+
+
 CORR = {
     "C07": [corr_helpers("C07", ("macro",))],
     "C11": [corr_helpers("C11", ("builderr",))],
@@ -350,4 +370,5 @@ CORR = {
     "C09": [corr_tok("C09")],
     "C10": [corr_tok("C10")],
     "C14": [corr_tok("C14"), corr_pipeline("C14")],
+    "C12": [corr_getlines("C12")],
 }
